@@ -589,6 +589,19 @@ func main() {
 			}
 		})
 	}
+	// family D: the first and the last rune of every encoding length (the values the code compares
+	// with: utf8.RuneSelf = U+0080 is the first rune that is NOT ASCII), texts not already in A
+	edgeAlpha := []string{"a", "\x7f", "\u0080", "\u07ff", "\u0800", "\ud7ff", "\ue000", "\uffff", "\U00010000", "\U0010ffff"}
+	edgeRunes := 3
+	if r.Thorough() {
+		edgeRunes = 4
+	}
+	var famD []string
+	for _, s := range common.AllStrings(edgeAlpha, edgeRunes) {
+		if !inA(s) {
+			famD = append(famD, s)
+		}
+	}
 	var identsInA int64
 	for _, s := range famA {
 		if isSnakeIdent(s) {
@@ -603,12 +616,15 @@ func main() {
 	all = append(all, sb...)
 	tc, sc, _ := runFamily(r, famC, int64(len(famA)+len(famB)), "family C (snake identifiers)")
 	all = append(all, sc...)
-	r.Eval(ta.ev + tb.ev + tc.ev)
-	r.Nontrivial(ta.nt + tb.nt + tc.nt)
+	td, sd, _ := runFamily(r, famD, int64(len(famA)+len(famB)+len(famC)), "family D (encoding-length boundary runes)")
+	all = append(all, sd...)
+	r.Eval(ta.ev + tb.ev + tc.ev + td.ev)
+	r.Nontrivial(ta.nt + tb.nt + tc.nt + td.nt)
 
 	r.Section(map[string]any{"family": "A valid texts", "alphabet": strings.Join(runeAlpha, " "), "max_runes": maxRunes, "texts": len(famA), "cases": ta.ev, "nontrivial": ta.nt, "snake_identifiers_round_tripped": identsInA})
 	r.Section(map[string]any{"family": "B arbitrary bytes", "alphabet": fmt.Sprintf("% X", strings.Join(byteAlpha, "")), "max_bytes": maxBytes, "texts": len(famB), "of_which_valid_utf8": bValid, "cases": tb.ev, "nontrivial": tb.nt})
 	r.Section(map[string]any{"family": "C snake identifiers", "words": strings.Join(words, " "), "max_words": 3, "texts": len(famC), "cases": tc.ev, "nontrivial": tc.nt})
+	r.Section(map[string]any{"family": "D encoding-length boundary runes", "alphabet": fmt.Sprintf("%+q", edgeAlpha), "max_runes": edgeRunes, "texts": len(famD), "cases": td.ev, "nontrivial": td.nt})
 
 	r.SampleL("valid", map[string]any{"call": "Sub(\"a世😀é_\", 1, 3)", "want": "世😀é"})
 	r.SampleL("valid", map[string]any{"call": "Mask(\"Bé世😀a\", \"ab\", 1, 2)", "want": "Bab😀a"})
